@@ -22,7 +22,8 @@ def takeNat (cs : List Char) : Option (Nat × List Char) :=
   if ds.isEmpty then none else (String.ofList ds).toNat?.map fun n => (n, cs.drop ds.length)
 
 /-- prefix code: `a<k>` atom, `L` the name Literal, `N` None, `s<ann>` string, `b<k>` string that is not an
-expression, `A<n><ann>` attribute `<ann>.<name n>` (0 = Literal), `S<v><slice>`, `T<a><b>`, `O<a><b>`. -/
+expression, `M` the name Annotated, `l<k>` / `m<k>` a name that resolves to typing.Literal / typing.Annotated,
+`A<n><ann>` attribute `<ann>.<name n>` (0 = Literal, 2 = Annotated), `S<v><slice>`, `T<a><b>`, `O<a><b>`. -/
 def parseAnnChars : Nat → List Char → Option (AnnE × List Char)
   | 0, _ => none
   | fuel+1, cs =>
@@ -30,6 +31,9 @@ def parseAnnChars : Nat → List Char → Option (AnnE × List Char)
     | 'a' :: r => (takeNat r).map fun (n, r') => (.atom n, r')
     | 'b' :: r => (takeNat r).map fun (n, r') => (.badStr n, r')
     | 'L' :: r => some (.literalName, r)
+    | 'M' :: r => some (.annotatedName, r)
+    | 'l' :: r => (takeNat r).map fun (n, r') => (.aliasRef n .literal, r')
+    | 'm' :: r => (takeNat r).map fun (n, r') => (.aliasRef n .annotated, r')
     | 'N' :: r => some (.noneLit, r)
     | 's' :: r => (parseAnnChars fuel r).map fun (e, r') => (.str e, r')
     | 'A' :: r => do
@@ -58,6 +62,9 @@ def parseAnn (s : String) : Option AnnE :=
 def showAnn : AnnE → String
   | .atom a => "a" ++ toString a
   | .literalName => "L"
+  | .annotatedName => "M"
+  | .aliasRef a .literal => "l" ++ toString a
+  | .aliasRef a .annotated => "m" ++ toString a
   | .noneLit => "N"
   | .str e => "s" ++ showAnn e
   | .badStr a => "b" ++ toString a
